@@ -14,6 +14,7 @@ fn body(ctx: &Ctx) -> (Summary, Meta) {
                 f32_too: a.n() <= 7,
                 xscale: 1.0,
                 nearly_closed: false,
+                lane_mix: false,
             });
         }
     }
@@ -29,13 +30,23 @@ fn body(ctx: &Ctx) -> (Summary, Meta) {
                     f32_too: true,
                     xscale,
                     nearly_closed: false,
+                lane_mix: false,
                 });
             }
         }
     }
     // periodic data that almost closes (last = first + 2^-20 relative)
     for a in axes.iter().filter(|a| a.n() >= 3) {
-        jobs.push(SplineJob { axis: a.clone(), spec: nimc::subj::BcSpec::Periodic, den: 8, f32_too: false, xscale: 1.0, nearly_closed: true });
+        jobs.push(SplineJob { axis: a.clone(), spec: nimc::subj::BcSpec::Periodic, den: 8, f32_too: false, xscale: 1.0, nearly_closed: true, lane_mix: false });
+    }
+    // lanes of wildly different magnitude (2^900, 2^-900, 1) in one data set
+    for a in axes.iter().filter(|a| a.name.starts_with("w[") && a.name.ends_with("@0") && a.n() <= if ctx.quick() { 4 } else { 6 }) {
+        for spec in bc_configs(a.n() + 8, a.n()) {
+            if matches!(spec, nimc::subj::BcSpec::Lanes(_) | nimc::subj::BcSpec::Rows(_)) {
+                continue; // prescribed derivative values belong to a magnitude
+            }
+            jobs.push(SplineJob { axis: a.clone(), spec, den: 8, f32_too: false, xscale: 1.0, nearly_closed: false, lane_mix: true });
+        }
     }
     // long graded axes (intervals growing / shrinking geometrically over 70 - 130 knots; knots are
     // the rounded partial sums): only the boundary-independent statements are judged
@@ -53,7 +64,7 @@ fn body(ctx: &Ctx) -> (Summary, Meta) {
             assert!(x.windows(2).all(|w| w[0] < w[1]));
             let a = nimc::alpha::Axis::new(format!("graded[r={r},n={n},{}]", if shrinking { "shrinking" } else { "growing" }), x);
             for spec in [nimc::subj::BcSpec::Periodic, nimc::subj::BcSpec::TopNotAKnot, nimc::subj::BcSpec::TopNatural] {
-                jobs.push(SplineJob { axis: a.clone(), spec, den: 8, f32_too: false, xscale: 1.0, nearly_closed: false });
+                jobs.push(SplineJob { axis: a.clone(), spec, den: 8, f32_too: false, xscale: 1.0, nearly_closed: false, lane_mix: false });
             }
         }
     }
@@ -75,7 +86,7 @@ fn body(ctx: &Ctx) -> (Summary, Meta) {
         },
     );
     let meta = Meta {
-        rule: "every (axis word, boundary configuration) is one built spline (state); per lane the Hermite pair of every interval is recovered from the implementation's samples at t=1/4,3/4 and (i) S(x_i)=y_i, (ii) the 5 other eighth-samples lie on that cubic, (iii) S' and (iv) S'' agree from both sides at every interior knot. Deliberately independent of which boundary rows are right. Non-trivial = lane with non-constant data. Extra jobs: Periodic on every axis with data whose last value misses the first by 2^-20 relative: rejected by build() (counted) or, if accepted, held to the same four statements.".into(),
+        rule: "every (axis word, boundary configuration) is one built spline (state); per lane the Hermite pair of every interval is recovered from the implementation's samples at t=1/4,3/4 and (i) S(x_i)=y_i, (ii) the 5 other eighth-samples lie on that cubic, (iii) S' and (iv) S'' agree from both sides at every interior knot. Deliberately independent of which boundary rows are right. Non-trivial = lane with non-constant data. Extra jobs: data sets whose lanes are scaled by 2^900, 2^-900 and 1 (whole-data-set boundary conditions); Periodic on every axis with data whose last value misses the first by 2^-20 relative: rejected by build() (counted) or, if accepted, held to the same four statements.".into(),
         bounds: format!("{} axes (same alphabet as C03), 33 boundary configurations, 8 samples per interval, f64 and f32", axes.len()),
         assumptions: vec![
             "tolerances K*eps*scale (value), 64x /h (S'), 256x /h^2 (S''), scale = max(|y|,|a|,|b|) of the recovered pieces".into(),
